@@ -126,13 +126,13 @@ def dynamic(cx, meta, targets):
 
 def hid_of(l):
     p = l.split()
-    return p[1] if len(p) > 1 and p[0] in ("H", "O", "P", "N", "U", "X", "E", "S") else None
+    return p[1] if len(p) > 1 and p[0] in ("H", "O", "P", "N", "U", "X", "E", "S", "T") else None
 
 
 def run_histories(cx, H, exe, hists):
     t0 = time.time()
     out, crashes = vp.run_cases(exe, hists, lambda l: l.split()[1] if l.startswith("H ") else None,
-                                lambda l: hid_of(l) if l[:2] in ("O ", "N ", "U ", "X ", "P ") else None, timeout=1500)
+                                lambda l: hid_of(l) if l[:2] in ("O ", "N ", "U ", "X ", "P ", "T ") else None, timeout=1500)
     for cl, rc, err in crashes:
         cx.violation("history-crash", "the library crashed or hung (rc=%s) on a history of public value operations: %s" % (rc, err[-300:]),
                      {"history": cl})
@@ -237,9 +237,9 @@ def impl_level(cx, H, exe, meta, targets):
         res.setdefault(name, []).append(f)
         checked += 1
         a_unch, det, chg = f.get("a_unchanged") == "1", f.get("b_detached") == "1", f.get("b_changed") == "1"
-        if not a_unch and (name in protecting | set(targets) or probe in NOT_A_METHOD or name == "Transform"):
+        if not a_unch and (name in protecting or probe in NOT_A_METHOD or name == "Transform"):
             cx.violation("impl-copy-corrupts-original:" + name,
-                         "Impl B = A (shares start_/paired_/propVert_); B.%s() changed A's halfedge arrays: any Manifold still pointing at A changes" % name,
+                         "Impl B; B = A (copy assignment shares start_/paired_/propVert_); B.%s() changed A's halfedge arrays: any Manifold still pointing at A changes" % name,
                          {"impl_case": l, "how_to_replay": "echo '%s' | %s" % (lines[int(p[1]) - 1] if p[1].isdigit() and 0 < int(p[1]) <= len(lines) else l, exe)})
         if meta and name in by_name:
             mm = by_name[name]
